@@ -318,7 +318,7 @@ func (g *bridgeGen) depositItem(d *depInfo, flaw string) (*bitcointypes.Deposit,
 	}
 	f := Ev{"wf": true, "key": kid, "keyType": keyType(d.key), "blk": int64(d.blk), "pos": d.pos, "hdr": project.H6(blk.hash), "parseOk": true,
 		"txid": project.H6(d.txid), "nOuts": d.nOuts, "outIdx": d.outIdx, "value": d.value, "version": int(d.version), "evm": hex.EncodeToString(d.evm),
-		"spvOk": true, "gen": d.gen, "flaw": flaw}
+		"spvOk": true, "gen": d.gen, "flaw": flaw, "pathLen": len(dep.IntermediateProof) / 32}
 	switch flaw {
 	case "otherEvm":
 		e2 := g.evms[(g.r.Intn(len(g.evms)-1)+1+indexOf(g.evms, d.evm))%len(g.evms)]
@@ -801,6 +801,10 @@ func (g *bridgeGen) plan(mode string) (*BlockPlan, error) {
 	if nearCb && ntx < 2 {
 		ntx = 2
 	}
+	climb := mode == "deep" && g.cbDep != nil && !g.cbDep.credited && st.Tip <= int64(g.cbDep.blk)+102
+	if climb && ntx < 1 {
+		ntx = 1
+	}
 	largeMined := false // the transaction of a large processing batch is mined below the voted tip: finalise it now
 	if mode == "burst" {
 		for _, p := range st.Proc {
@@ -818,6 +822,9 @@ func (g *bridgeGen) plan(mode string) (*BlockPlan, error) {
 		x := r.Intn(22)
 		if nearCb && k == 0 {
 			x = 10 // present the coinbase deposit at every height around its maturity
+		}
+		if climb && ((nearCb && k == 1) || (!nearCb && k == 0)) {
+			x = 0 // deep histories vote block hashes in every block until the coinbase deposit has matured
 		}
 		if largeMined && k == 0 {
 			x = 16
@@ -1179,7 +1186,7 @@ func (g *bridgeGen) processTx(vc *voteCtx, st *project.BridgeState) (*brTx, erro
 		}
 	}
 	cur := g.curKey()
-	replace := len(st.Proc) > 0 && rare(3)
+	replace := len(st.Proc) > 0 && (rare(3) || (g.mode == "spv" && rare(2)))
 	var ids []int64
 	var pid int64
 	var prevFee int64
@@ -1332,6 +1339,17 @@ func (g *bridgeGen) finalizeMsg(vc *voteCtx, st *project.BridgeState) (sdk.Msg, 
 	}
 	w := cand[r.Intn(len(cand))]
 	large := false
+	if g.mode == "spv" && rare(2) { // a batch that was fee-bumped: prefer the mined transaction that is NOT the latest replacement
+		for _, p := range st.Proc {
+			for _, c := range cand {
+				if len(p.Txids) >= 2 && c.pid == p.Pid {
+					if k := indexOfStr(p.Txids, project.H6(c.txid)); k >= 0 && k < len(p.Txids)-1 {
+						w = c
+					}
+				}
+			}
+		}
+	}
 	if g.mode == "burst" { // the mined transaction of a large batch still in processing goes first, and unspoilt
 		for _, p := range st.Proc {
 			for _, c := range cand {
